@@ -204,6 +204,8 @@ def run_shard(desc):
     def body(rnd, st_):
         g = dg.Gen(rnd)
         cls = xmlschema.XMLSchema11 if rnd.random() < .3 else xmlschema.XMLSchema10
+        if cls is xmlschema.XMLSchema11 and dg.mark_inheritable(g, rnd):
+            st_.cls('xsd11_inheritable_attributes')
         xsd = g.xsd()
         s = cls(xsd)
         tree = g.inst()
